@@ -765,7 +765,7 @@ func (sc *Scenario) gwFile() string {
 	}
 	for i, p := range sc.GWSeries {
 		row(id, p.D, p.Level)
-		if sc.GWId != "" && i%3 != 1 {
+		if sc.GWId != "" && sc.GWId != sc.Soil.ID && i%3 != 1 { // (the drawn gwId may happen to be the soil's own id: then there is nothing to decoy)
 			row(sc.Soil.ID, p.D.AddDays(i%2), p.Level+2.2)
 		}
 		if sc.OtherField && i%2 == 0 {
